@@ -1,44 +1,116 @@
 ----------------------------- MODULE Determinism -----------------------------
 (* C04: analysis output is a pure function of the source and the options.                       *)
 (* Processes differ in their interpreter hash seed; inside a process analyses happen one after   *)
-(* the other, each with a fresh loader or with the process's long-lived (reused) loader.  The    *)
-(* specification: there is a fixed (arbitrary) function F such that every Analyze(proc, prog,    *)
-(* mode) observes F[prog]; what a process did before and how its loader was obtained must not    *)
-(* matter.  An observation is <<digest of the stub text, error report, digest of pickled stub>>. *)
+(* the other, each with a fresh loader or with the process's long-lived (reused) loader, with    *)
+(* one of the option sets Opts, and possibly after `warm` units of unrelated earlier work (a     *)
+(* unit = one un-annotated parameter of some other module analysed in the same process).  The    *)
+(* specification: there is a fixed (arbitrary) function F such that every                        *)
+(* Analyze(proc, prog, opt, mode, warm) observes F[prog, opt]; the process's hash seed, what the *)
+(* process did before (how much, and what) and how its loader was obtained must not matter.      *)
+(* An observation is <<digest of the stub text, digest of the error report, digest of the        *)
+(* pickled stub>>.                                                                               *)
+(*                                                                                               *)
+(* Families of histories (bounds of the model; the driver runs all of them in one TLC run):       *)
+(*   mixed  : 3 processes x 3 programs x 2 option sets x 2 loader modes x warm-ups {0,4},        *)
+(*            all histories of 3 steps up to renaming of processes/programs (canonical)          *)
+(*   seeds  : 6 processes (hash seeds) x 1 program, all 2-step histories (no renaming)           *)
+(*   prefix : 2 processes with the SAME hash seed x 1 program x warm-ups 0..12: all pairs of     *)
+(*            "amounts of earlier work"                                                          *)
 EXTENDS Naturals, Sequences, FiniteSets, TLC, Json
 
-CONSTANTS Procs, Progs, MaxSteps, Export
+CONSTANTS Families,   \* subset of {"mixed", "seeds", "prefix"}
+          Export
 Modes == {"fresh", "reused"}
+AllOpts == {"default", "protocols"}
+(* procs / progs: identities (naturals); opts: option sets; warmups: amounts of unrelated work a *)
+(* process may do right before an analysis; sameSeed: all processes run with one hash seed (only *)
+(* history differs); canonical: explore histories up to renaming of processes and programs       *)
+Family(name) ==
+  CASE name = "mixed" -> [name |-> name, procs |-> 1 .. 3, progs |-> 1 .. 3, opts |-> AllOpts,
+                          warmups |-> {0, 4}, maxSteps |-> 3, sameSeed |-> FALSE, canonical |-> TRUE]
+    [] name = "seeds" -> [name |-> name, procs |-> 1 .. 6, progs |-> {1}, opts |-> {"default"},
+                          warmups |-> {0}, maxSteps |-> 2, sameSeed |-> FALSE, canonical |-> FALSE]
+    [] name = "prefix" -> [name |-> name, procs |-> 1 .. 2, progs |-> {1}, opts |-> AllOpts,
+                           warmups |-> 0 .. 12, maxSteps |-> 2, sameSeed |-> TRUE, canonical |-> TRUE]
 
-VARIABLES hist,     \* sequence of <<proc, prog, mode>>
-          table,    \* prog |-> observation seen first ("" = not yet analysed)
-          ok        \* FALSE once two observations of one program differ
-vars == <<hist, table, ok>>
+VARIABLES fam,      \* the family this behaviour belongs to (fixed at Init)
+          hist,     \* sequence of [proc, prog, opt, mode, warm]
+          seen,     \* <<prog, opt>> |-> set of [c |-> circumstances, obs |-> observation]
+          work,     \* proc |-> units of work done so far (1 per analysis + the warm-ups)
+          ok        \* FALSE once two observations of one (program, options) differ
+vars == <<fam, hist, seen, work, ok>>
 
-(* the model's stand-in for the real analysis: the pure function F (identity of the program) *)
-F(prog) == prog
+Get(f, k, default) == IF k \in DOMAIN f THEN f[k] ELSE default
+Put(f, k, v) == [x \in DOMAIN f \cup {k} |-> IF x = k THEN v ELSE f[x]]
 
-Observe(proc, prog, mode, obs) ==
-  /\ hist' = Append(hist, <<proc, prog, mode>>)
-  /\ IF table[prog] = "" THEN table' = [table EXCEPT ![prog] = obs] /\ ok' = ok
-     ELSE table' = table /\ ok' = (ok /\ table[prog] = obs)
+(* the model's stand-in for the real analysis: the pure function F *)
+F(prog, opt) == <<prog, opt>>
+SeedOf(proc) == IF fam.sameSeed THEN 0 ELSE proc
 
-Analyze(proc, prog, mode) == Observe(proc, prog, mode, F(prog))
+(* circumstances of an analysis: everything that must NOT influence the observation *)
+Circ(proc, seed, mode, before) == [proc |-> proc, seed |-> seed, mode |-> mode, work |-> before]
 
-Init == hist = <<>> /\ table = [p \in Progs |-> ""] /\ ok = TRUE
-Next == /\ Len(hist) < MaxSteps
-        /\ \E proc \in Procs, prog \in Progs, mode \in Modes : Analyze(proc, prog, mode)
+Observe(proc, seed, prog, opt, mode, warm, obs) ==
+  LET key == <<prog, opt>>
+      old == Get(seen, key, {})
+      before == Get(work, proc, 0) + warm IN
+  /\ hist' = Append(hist, [proc |-> proc, prog |-> prog, opt |-> opt, mode |-> mode, warm |-> warm])
+  /\ seen' = Put(seen, key, old \cup {[c |-> Circ(proc, seed, mode, before), obs |-> obs]})
+  /\ work' = Put(work, proc, before + 1)
+  /\ ok' = (ok /\ \A x \in old : x.obs = obs)
+  /\ fam' = fam
+
+Analyze(proc, prog, opt, mode, warm) == Observe(proc, SeedOf(proc), prog, opt, mode, warm, F(prog, opt))
+
+Max(S) == IF S = {} THEN 0 ELSE CHOOSE x \in S : \A y \in S : y <= x
+UsedProcs == {hist[k].proc : k \in DOMAIN hist}
+UsedProgs == {hist[k].prog : k \in DOMAIN hist}
+
+Init == /\ fam \in {Family(n) : n \in Families}
+        /\ hist = <<>> /\ seen = <<>> /\ work = <<>> /\ ok = TRUE
+Next == /\ Len(hist) < fam.maxSteps
+        /\ \E proc \in fam.procs, prog \in fam.progs, opt \in fam.opts, mode \in Modes,
+              warm \in fam.warmups :
+             /\ fam.canonical => (proc <= Max(UsedProcs) + 1 /\ prog <= Max(UsedProgs) + 1)
+             /\ Analyze(proc, prog, opt, mode, warm)
 Spec == Init /\ [][Next]_vars
 
 Consistent == ok
-(* histories worth executing: some program is analysed at least twice under different           *)
-(* circumstances (another process, another loader mode, or after other analyses)                *)
+(* histories worth executing: some (program, options) is analysed at least twice under          *)
+(* different circumstances (another process, another loader mode, or after other work)          *)
 Interesting ==
-  \E a, b \in DOMAIN hist : a < b /\ hist[a][2] = hist[b][2]
+  \E a, b \in DOMAIN hist : a < b /\ hist[a].prog = hist[b].prog /\ hist[a].opt = hist[b].opt
 ExportInv ==
-  (Export /\ Len(hist) = MaxSteps /\ Interesting) => PrintT(<<"CASE", ToJson([h |-> hist])>>)
+  (Export /\ Len(hist) = fam.maxSteps /\ Interesting) =>
+     PrintT(<<"CASE", ToJson([f |-> fam.name, h |-> hist])>>)
 
-(* error report well-formedness (part of C04): strictly sorted by line, duplicate-free.          *)
+(* ---- the verdict on one observation (used by TraceC04 on what the real code produced) ------ *)
+(* which circumstances distinguish two analyses of the same (program, options)                   *)
+Dims(c1, c2) ==
+  (IF c1.seed # c2.seed THEN {"hash-seed"} ELSE {})
+  \cup (IF c1.work # c2.work THEN {"earlier-work"} ELSE {})
+  \cup (IF c1.mode # c2.mode THEN {"loader-mode"} ELSE {})
+  \cup (IF c1.proc # c2.proc /\ c1.seed = c2.seed /\ c1.work = c2.work /\ c1.mode = c2.mode
+        THEN {"process-only"} ELSE {})
+Parts == <<"pyi", "errors", "pickle">>
+(* the entry of the analysis that `proc` did last *)
+Latest(entries, proc) == CHOOSE x \in entries : x.c.proc = proc /\ x.c.work = work[proc] - 1
+(* earlier observations of the same (program, options) that differ from the latest one; the    *)
+(* report names the closest one (fewest differing circumstances), so that the finding says      *)
+(* WHAT the output depends on                                                                   *)
+Differing(entries, cur) == {x \in entries : x.obs # cur.obs}
+Closest(D, cur) ==
+  CHOOSE x \in D : \A y \in D : Cardinality(Dims(x.c, cur.c)) <= Cardinality(Dims(y.c, cur.c))
+DiffReport(prog, opt, proc) ==
+  LET entries == seen[<<prog, opt>>]
+      cur == Latest(entries, proc)
+      D == Differing(entries, cur) IN
+  IF D = {} THEN <<>>
+  ELSE LET x == Closest(D, cur) IN
+       <<[parts |-> {Parts[n] : n \in {m \in 1 .. 3 : x.obs[m] # cur.obs[m]}},
+          dims |-> Dims(x.c, cur.c), peer |-> x.c, now |-> cur.c]>>
+
+(* error report well-formedness (part of C04): sorted by line, duplicate-free.                   *)
 (* errs = sequence of <<line, name, digest of (position incl. column, message, details, traceback)>> *)
 SortedUnique(errs) ==
   /\ \A a, b \in DOMAIN errs : a < b => errs[a][1] <= errs[b][1]
